@@ -151,7 +151,7 @@ class Path:
 
 
 class State:
-    __slots__ = ('env', 'heap', 'conds', 'events', 'known', 'visits', 'occ', 'frames')
+    __slots__ = ('env', 'heap', 'conds', 'events', 'known', 'visits', 'occ', 'frames', 'hh')
 
     def __init__(self):
         self.env = {}
@@ -162,6 +162,7 @@ class State:
         self.visits = {}
         self.occ = {}
         self.frames = {}
+        self.hh = False
 
     def fork(self):
         s = State()
@@ -172,6 +173,7 @@ class State:
         s.known = dict(self.known)
         s.visits = dict(self.visits)
         s.occ = dict(self.occ)
+        s.hh = self.hh
         s.frames = {k: dict(v) for k, v in self.frames.items()}
         # env must stay the same object as its frame entry
         for k, v in self.frames.items():
@@ -182,8 +184,12 @@ class State:
 
 class SymEx:
     def __init__(self, prog, inline_depth=4, inline_max_blocks=60, inline_pred=None, loop_visits=2,
-                 max_paths=MAX_PATHS, eff=None):
+                 max_paths=MAX_PATHS, eff=None, havoc_loops=False):
         self.prog = prog
+        # havoc_loops: on entering a loop, everything the loop may modify (locals assigned / mutably borrowed in it, the whole heap)
+        # becomes unknown, so that terms never denote a first-iteration value of loop-carried state (needed for value-range arguments)
+        self.havoc_loops = havoc_loops
+        self._loop_hdr = {}
         self.eff = eff
         self._pure = {}
         self._closure_fields = {}
@@ -245,6 +251,8 @@ class SymEx:
                 else:
                     r = ('index', bv, key[2])
                 return r
+        if st.hh and not self._rooted_in_local(key) and k in ('fld', 'payload', 'index'):
+            return ('havoc', key)
         return key
 
     def _rooted_in_local(self, key):
@@ -490,6 +498,15 @@ class SymEx:
             if n >= self.loop_visits:
                 return  # loop cut: abandon this path prefix (other exits cover it)
             st.visits[(b.nid, bi, depth)] = n + 1
+            if self.havoc_loops and n == 0:
+                hd = self._loop_hdr.get(b.nid)
+                if hd is None:
+                    hd = {}
+                    for h_, body_, _back in b.loops():
+                        hd.setdefault(h_, set()).update(body_)
+                    self._loop_hdr[b.nid] = hd
+                if bi in hd:
+                    self._havoc(b, hd[bi], st)
             blk = b.blocks[bi]
             for s in blk['stmts']:
                 if s['st'] == 'assign':
@@ -513,7 +530,7 @@ class SymEx:
                     out.append(Path(st.conds, None, st.events, True, st.known))
                 return
             if k == 'assert':
-                st.events.append(('assert', t['kind'], tuple(self.operand(b, st, o) for o in t['ops']), t.get('line'), b.nid))
+                st.events.append(('assert', t['kind'], tuple(self.operand(b, st, o) for o in t['ops']), t.get('line'), b.nid, bi))
                 bi = t['target']; continue
             if k == 'drop':
                 v = self.read_place(b, st, t['pl'])
@@ -549,6 +566,44 @@ class SymEx:
                 continue
             # other terminators: stop
             return
+
+    def _havoc(self, b, body, st):
+        mod = set()
+        ptr = set()
+
+        def note(pl):
+            if any(e == '*' for e in pl.get('p', [])):
+                ptr.add(pl['l'])
+            else:
+                mod.add(pl['l'])
+        for x in body:
+            blk = b.blocks[x]
+            for s_ in blk['stmts']:
+                if s_['st'] == 'assign':
+                    note(s_['pl'])
+                    rv = s_['rv']
+                    if rv['rv'] in ('ref', 'rawptr') and rv.get('mut', True):
+                        # a literal range that is only advanced (`for i in a..b`) keeps yielding values of [a, b): its bounds stay known
+                        if not rv['pl'].get('p') and b.local_ty(rv['pl']['l'])['s'].startswith(('std::ops::Range<', 'std::ops::RangeInclusive<')):
+                            continue
+                        note(rv['pl'])
+            t = blk['term']
+            if t['t'] == 'call' and t.get('dest'):
+                note(t['dest'])
+        for l in ptr:
+            v = st.env.get(l)
+            root = v
+            while isinstance(root, tuple) and root and root[0] in ('fld', 'payload', 'index'):
+                root = root[1]
+            if isinstance(root, tuple) and root and root[0] == 'local':
+                self._unk += 1
+                self.store(st, root, ('unk', 'loop%d' % self._unk), b, None, False)
+        for l in mod:
+            if 1 <= l or l == 0:
+                self._unk += 1
+                st.env[l] = ('unk', 'loop%d' % self._unk)
+        st.heap = {}
+        st.hh = True
 
     def simplify(self, st, d):
         """Evaluate a branch term against what this path already knows."""
@@ -902,7 +957,33 @@ class SymEx:
                 return 'handled'
         if (ext.endswith('std::ops::FromResidual>::from_residual') or ext.endswith('FromResidual::from_residual')) and args:
             return self.load(st, args[0], b)
-        if ext.startswith('std::iter::Iterator::') and args:
+        if ext == 'std::iter::successors' and len(args) == 2 and (raw or args)[1][0] in ('closure', 'fn'):
+            # stateful: (successor function, the item the next call of next() yields)
+            return ('iter_succ', (raw or args)[1], self.load(st, args[0], b))
+        if ext == '<std::iter::Successors as std::iter::Iterator>::next' and args and raw:
+            loc = raw[0]
+            it = self.load(st, loc, b) if isinstance(loc, tuple) and loc and loc[0] in ('local', 'fld') else args[0]
+            if isinstance(it, tuple) and it and it[0] == 'iter_succ':
+                clo, cur = it[1], it[2]
+                for (s2, is_some, payload) in self.option_cases(st, cur):
+                    if not is_some:
+                        self.store(s2, loc, ('iter_succ', clo, NONE), b, line, False)
+                        resume(s2, NONE)
+                    else:
+                        def ksucc(s3, rv, _pl=payload, _clo=clo):
+                            self.store(s3, loc, ('iter_succ', _clo, rv), b, line, False)
+                            resume(s3, some(_pl))
+                        self.apply_fn(clo, [payload], s2, depth, out, ksucc)
+                return 'handled'
+        if ext == 'crossbeam_channel::Receiver::try_iter' and args:
+            # draining a channel through its non-blocking iterator is a sequence of try_recv() calls
+            return ('chan_iter', args[0])
+        if last == 'next' and args and isinstance(args[0], tuple) and args[0] and args[0][0] in ITER_ADAPTORS + ('chan_iter',) and ('Iterator' in ext or 'iter::' in ext):
+            self.iter_next(b, st, args[0], depth, out, line, resume)
+            return 'handled'
+        if ext.endswith('Iterator::take') and len(args) == 2 and isinstance(args[0], tuple) and args[0] and args[0][0] == 'chan_iter':
+            return args[0]
+        if (ext.startswith('std::iter::Iterator::') or ' as std::iter::Iterator>::' in ext) and args:
             # lazy adaptors are terms; `next` / `find` / `find_map` on them pull one abstract item through the closures
             # (items the predicate rejects are skipped by the adaptor itself: only the accepted item and exhaustion are outcomes)
             if last in ('filter', 'map', 'filter_map') and len(args) == 2 and (raw or args)[1][0] in ('closure', 'fn'):
@@ -910,6 +991,17 @@ class SymEx:
             if last in ('find', 'find_map') and len(args) == 2 and (raw or args)[1][0] in ('closure', 'fn'):
                 it = ('iter_filter' if last == 'find' else 'iter_filter_map', args[0], (raw or args)[1])
                 self.iter_next(b, st, it, depth, out, line, resume)
+                return 'handled'
+            if last == 'fold' and len(args) == 3 and (raw or args)[2][0] in ('closure', 'fn'):
+                # zero iterations (-> init) or one abstract iteration f(init, item) with an arbitrary item of the sequence
+                init, clo = args[1], (raw or args)[2]
+
+                def kfold(s2, opt, _init=init, _clo=clo):
+                    if opt == NONE:
+                        resume(s2, _init)
+                    else:
+                        self.apply_fn(_clo, [_init, opt[3][0]], s2, depth, out, lambda s3, rv: resume(s3, rv))
+                self.iter_next(b, st, args[0], depth, out, line, kfold)
                 return 'handled'
             if last == 'next' and isinstance(args[0], tuple) and args[0][0] in ITER_ADAPTORS:
                 self.iter_next(b, st, args[0], depth, out, line, resume)
@@ -967,6 +1059,16 @@ class SymEx:
                                 k(s3, some(pl))
                     self.apply_fn(clo, [payload], s, depth, out, kfm)
             self.iter_next(b, st, it[1], depth, out, line, k1)
+            return
+        if kind == 'chan_iter':
+            rcv = self.call_term(st, 'crossbeam_channel::Receiver::try_recv', (it[1],), [])
+            st.events.append(('call', 'crossbeam_channel::Receiver::try_recv', (it[1],), line, b.nid, None, rcv))
+            d = ('discr', rcv)
+            s_err = st.fork()
+            s_err.conds.append((d, 1)); s_err.known[d] = 1
+            st.conds.append((d, 0)); st.known[d] = 0
+            k(st, some(self.load(st, ('payload', rcv, 'Ok', 0))))
+            k(s_err, NONE)
             return
         nxt = self.call_term(st, 'std::iter::Iterator::next', (it,), [])
         st.events.append(('call', 'std::iter::Iterator::next', (it,), line, b.nid, None, nxt))
